@@ -182,15 +182,22 @@ let sc_sorter c =
   let maxmem = (match rint c.st 3 with 0 -> 1 | 1 -> rrange c.st 100 2000 | _ -> 100000000) in
   let s = So.c_sorter_init maxmem c.spill mc pool in
   let sid = create c (KSorter (pooled, N0)) in
+  (* without a pool and without a failing merge callback the scenario is also run on the operational model *)
+  let mid = n_of_int in
+  let opm = not pooled && fail_at = 0 in
+  if opm then (c.rops_on <- true; rop c (RSorterInit (mid 6400, None)));
   observe c "sorter_init" ~threads_exact:(not pooled);
   let n = rrange c.st 0 120 in
   let failed = ref false in
   for i = 0 to n - 1 do
     let k = Printf.sprintf "k%03d" (rint c.st 40) in
     let k = if maxmem > 100000 && rint c.st 3 = 0 then k ^ String.make (rrange c.st 257 2000) 'K' else k in
-    if not (So.c_sorter_add s k (Printf.sprintf "a%d" i)) then failed := true
+    let before = So.c_mkstemp_count () in
+    if not (So.c_sorter_add s k (Printf.sprintf "a%d" i)) then failed := true;
+    if opm then rop c (RSorterAdd (mid 6400, (if So.c_mkstemp_count () > before then Some [ CWrite ] else None), false))
   done;
   let mode = rint c.st 4 in
+  if opm && mode = 3 then c.rops_on <- false;      (* mtbl_sorter_write: not followed on the operational model here *)
   if not pooled && fail_at = 0 then begin
     update c sid (KSorter (false, n_of_int (So.c_mkstemp_count ())));
     observe c "sorter_adds" ~threads_exact:true
@@ -203,9 +210,14 @@ let sc_sorter c =
      let it = So.c_sorter_iter s in
      if it <> 0n then Rd.c_iter_destroy it
    | 1 | 2 when not (!failed || fail_at > 0) ->
+     let before = So.c_mkstemp_count () in
      let it = So.c_sorter_iter s in
-     for _ = 1 to rint c.st 50 do ignore (Rd.c_iter_next it) done;
-     if it <> 0n then Rd.c_iter_destroy it
+     let nchunks = So.c_mkstemp_count () in
+     if opm then rop c (RSorterIter (mid 6401, mid 6400, (if nchunks > before then [ CWrite ] else []),
+                                     Ioc (it <> 0n, true, List.init nchunks (fun _ -> Ioc (true, true, []))), false));
+     if opm then (update c sid (KSorter (false, n_of_int nchunks)); observe c "sorter_iter" ~threads_exact:true);
+     for _ = 1 to rint c.st 50 do ignore (Rd.c_iter_next it); if opm then rop c (RIterNext (mid 6401)) done;
+     if it <> 0n then (Rd.c_iter_destroy it; if opm then rop c (RIterDestroy (mid 6401)))
    | 3 when not (!failed || fail_at > 0) ->
      (* sorter_write into a writer that refuses the first key *)
      let path = Filename.concat c.dir "sw.mtbl" in
@@ -218,6 +230,7 @@ let sc_sorter c =
      Wr.c_writer_destroy w
    | _ -> ());
   So.c_sorter_destroy s; destroy c sid; Mg.c_merge_clos_free mc;
+  if opm then rop c (RSorterDestroy (mid 6400));
   observe c "sorter_destroy" ~threads_exact:(not pooled);
   (match pid with Some p -> Wr.c_pool_destroy pool; destroy c p | None -> ());
   observe c "pool_destroy" ~threads_exact:true
@@ -265,7 +278,18 @@ let sc_sorter_write_refused c =
   So.c_sorter_destroy s; destroy c sid; Mg.c_merge_clos_free mc;
   observe c "sorter_destroy" ~threads_exact:true
 
+(* the operational model's view of a fileset scenario: the entries of the shared my_fileset in the MODEL's order
+   (kept entries first, then the added ones), and the reload description for a rewritten setfile *)
+let fs_reload_plan (ents : string list ref) (now_lines : string list) : rl =
+  let keep = List.map (fun nm -> List.mem nm now_lines) !ents in
+  let added = List.filter (fun nm -> not (List.mem nm !ents)) now_lines in
+  ents := List.filter (fun nm -> List.mem nm now_lines) !ents @ added;
+  { rl_due = true; rl_changed = true; rl_keep = keep; rl_added = List.map (fun _ -> (true, RdOk)) added }
+let fs_subs n = List.init n (fun _ -> Ioc (true, true, []))
+
 let sc_fileset c =
+  let mid = n_of_int in
+  c.rops_on <- true;
   let names = List.init (rrange c.st 1 4) (fun i -> Printf.sprintf "t%02d.mtbl" i) in
   List.iter (fun nm -> ignore (mk_table c nm (rrange c.st 1 30))) names;
   let setfile = Filename.concat c.dir "set.fileset" in
@@ -274,27 +298,45 @@ let sc_fileset c =
   let mc = Mg.c_merge_clos_new 1 0 in
   let f = Fs.c_fileset_init setfile 0 mc 0 0 in
   let fid = create c (KFileset N0) in
+  let ents = ref [] in
+  rop c (RFilesetInit (mid 6000, mid 6050));
   let it = Rd.c_source_iter (Fs.c_fileset_source f) in
+  let plan = fs_reload_plan ents names in
+  rop c (RFilesetIter (mid 6100, mid 6000, QIter, plan, Ioc (it <> 0n, true, fs_subs (List.length !ents))));
   update c fid (KFileset (n_of_int (List.length names)));
   observe c "fileset_iter(first load)" ~threads_exact:true;
-  for _ = 1 to rint c.st 10 do ignore (Rd.c_iter_next it) done;
-  let d = Fs.c_fileset_dup f 0 mc (rint c.st 3) 0 in
+  for _ = 1 to rint c.st 10 do ignore (Rd.c_iter_next it); rop c (RIterNext (mid 6100)) done;
+  let nfilt = rint c.st 3 in          (* filename filter of the dup: none / even / odd file numbers (the model has no filters:
+                                        they change only how many readers the dup's merger holds, i.e. heap, not descriptors or mappings) *)
+  let d = Fs.c_fileset_dup f 0 mc nfilt 0 in
+  rop c (RFilesetDup (mid 6001, mid 6000));
   let it2 = Rd.c_source_get (Fs.c_fileset_source d) "k0001" in
+  rop c (RFilesetIter (mid 6101, mid 6001, QGet, rl_none, Ioc (it2 <> 0n, true, fs_subs (List.length !ents))));
   let it3 = Rd.c_source_get (Fs.c_fileset_source d) "absent" in
+  rop c (RFilesetIter (mid 6102, mid 6001, QGet, rl_none, Ioc (it3 <> 0n, true, fs_subs (List.length !ents))));
   observe c "dup+iterators" ~threads_exact:true;
-  Rd.c_iter_destroy it; if it2 <> 0n then Rd.c_iter_destroy it2; if it3 <> 0n then Rd.c_iter_destroy it3;
+  Rd.c_iter_destroy it; rop c (RFilesetIterDestroy (mid 6100, rl_none));
+  if it2 <> 0n then Rd.c_iter_destroy it2; rop c (RFilesetIterDestroy (mid 6101, rl_none));
+  if it3 <> 0n then Rd.c_iter_destroy it3; rop c (RFilesetIterDestroy (mid 6102, rl_none));
+  observe c "iterators destroyed" ~threads_exact:true;
   (* drop a file from the setfile and reload *)
   let names' = List.tl names in
   write_set names'; Unix.utimes setfile 5000.0 5000.0;
   Fs.c_advance_clock 5 0; Fs.c_fileset_reload_now f;
+  rop c (RFilesetReload (mid 6000, true, fs_reload_plan ents names'));
   update c fid (KFileset (n_of_int (List.length names')));
   observe c "reload_now(after dropping a file)" ~threads_exact:true;
-  if rbool c.st then (Fs.c_fileset_destroy d; Fs.c_fileset_destroy f) else (Fs.c_fileset_destroy f; Fs.c_fileset_destroy d);
+  if rbool c.st then (Fs.c_fileset_destroy d; rop c (RFilesetDestroy (mid 6001)); observe c "dup destroyed first" ~threads_exact:true;
+                      Fs.c_fileset_destroy f; rop c (RFilesetDestroy (mid 6000)))
+  else (Fs.c_fileset_destroy f; rop c (RFilesetDestroy (mid 6000)); observe c "original destroyed first" ~threads_exact:true;
+        Fs.c_fileset_destroy d; rop c (RFilesetDestroy (mid 6001)));
   destroy c fid; Mg.c_merge_clos_free mc;
   observe c "fileset_destroy" ~threads_exact:true
 
 (* a table that stays loaded across a reload of a changed setfile and is dropped by a later one *)
 let sc_fileset_long c =
+  let mid = n_of_int in
+  c.rops_on <- true;
   let names = List.init (rrange c.st 3 5) (fun i -> Printf.sprintf "u%02d.mtbl" i) in
   List.iter (fun nm -> ignore (mk_table c nm (rrange c.st 1 30))) names;
   let setfile = Filename.concat c.dir "setl.fileset" in
@@ -306,25 +348,37 @@ let sc_fileset_long c =
   write_set first;
   let f = Fs.c_fileset_init setfile 0 mc 0 0 in
   let fid = create c (KFileset N0) in
-  let use () = let it = Rd.c_source_iter (Fs.c_fileset_source f) in for _ = 1 to rint c.st 6 do ignore (Rd.c_iter_next it) done; Rd.c_iter_destroy it in
-  use (); update c fid (KFileset (n_of_int 2));
+  let ents = ref [] in
+  rop c (RFilesetInit (mid 6200, mid 6250));
+  let nit = ref 6300 in
+  (* an iterator on handle h (model id hm), a few entries, destroyed; [plan]: what the reload at its creation finds *)
+  let use_on h hm plan =
+    let it = Rd.c_source_iter (Fs.c_fileset_source h) in
+    incr nit;
+    rop c (RFilesetIter (mid !nit, mid hm, QIter, plan, Ioc (it <> 0n, true, fs_subs (List.length !ents))));
+    for _ = 1 to rint c.st 6 do ignore (Rd.c_iter_next it); rop c (RIterNext (mid !nit)) done;
+    Rd.c_iter_destroy it; rop c (RFilesetIterDestroy (mid !nit, rl_none)) in
+  use_on f 6200 (fs_reload_plan ents first); update c fid (KFileset (n_of_int 2));
   observe c "fileset(first load)" ~threads_exact:true;
   let d = if rbool c.st then Some (Fs.c_fileset_dup f 0 mc 0 0) else None in
+  if d <> None then rop c (RFilesetDup (mid 6201, mid 6200));
   (* grow: the first two survive *)
-  write_set names; Fs.c_advance_clock 5 0; Fs.c_fileset_reload_now f; use ();
+  let reload_now lines = write_set lines; Fs.c_advance_clock 5 0; Fs.c_fileset_reload_now f;
+    rop c (RFilesetReload (mid 6200, true, fs_reload_plan ents lines)) in
+  reload_now names; use_on f 6200 rl_none;
   update c fid (KFileset (n_of_int (List.length names)));
   observe c "reload_now(setfile grew)" ~threads_exact:true;
   (* shrink: one of the long-lived tables is dropped *)
   let kept = List.filter (fun nm -> nm <> List.nth names 1) names in
-  write_set kept; Fs.c_advance_clock 5 0; Fs.c_fileset_reload_now f; use ();
-  (match d with Some dd -> let it = Rd.c_source_iter (Fs.c_fileset_source dd) in ignore (Rd.c_iter_next it); Rd.c_iter_destroy it | None -> ());
+  reload_now kept; use_on f 6200 rl_none;
+  (match d with Some dd -> use_on dd 6201 rl_none | None -> ());
   update c fid (KFileset (n_of_int (List.length kept)));
   observe c "reload_now(long-lived table dropped)" ~threads_exact:true;
-  write_set [ List.nth names 2 ]; Fs.c_advance_clock 5 0; Fs.c_fileset_reload_now f; use ();
+  reload_now [ List.nth names 2 ]; use_on f 6200 rl_none;
   update c fid (KFileset (n_of_int 1));
   observe c "reload_now(all but one dropped)" ~threads_exact:true;
-  (match d with Some dd -> Fs.c_fileset_destroy dd | None -> ());
-  Fs.c_fileset_destroy f; destroy c fid; Mg.c_merge_clos_free mc;
+  (match d with Some dd -> Fs.c_fileset_destroy dd; rop c (RFilesetDestroy (mid 6201)) | None -> ());
+  Fs.c_fileset_destroy f; rop c (RFilesetDestroy (mid 6200)); destroy c fid; Mg.c_merge_clos_free mc;
   observe c "fileset_destroy" ~threads_exact:true
 
 (* writers created through a path: fresh path (one descriptor while alive), an existing path (refused: nothing
